@@ -41,6 +41,7 @@ type c06Item struct {
 	producer string
 	wire     string
 	bad      string // NFC oracle column: (x.. x..) strings that are not NFC
+	caps     string // capsule-equality oracle column: identity tag of every capsule leaf, dump order (c06_d06.go)
 	lit      func() string // how to reproduce
 	walk     []string
 	depth    int
@@ -465,7 +466,7 @@ func (j *c06Judge) see(producer string, v cty.Value, lit func() string) {
 	if depth >= 2 {
 		j.ctx.Tag("depth>=2:" + producer)
 	}
-	j.items = append(j.items, c06Item{producer: producer, wire: wire, bad: c06NfcBad(wire), lit: lit, walk: probs, depth: depth, dupCause: dupCause,
+	j.items = append(j.items, c06Item{producer: producer, wire: wire, bad: c06NfcBad(wire), caps: c06CapCol(v), lit: lit, walk: probs, depth: depth, dupCause: dupCause,
 		cause: func() string {
 			if causeOf == nil {
 				return ""
@@ -502,7 +503,7 @@ func leanVerdicts(items []c06Item) ([]string, error) {
 	}
 	var sb strings.Builder
 	for i, it := range items {
-		fmt.Fprintf(&sb, "%d wf %s %s\n", i, it.wire, it.bad)
+		fmt.Fprintf(&sb, "%d wfc %s %s %s\n", i, it.wire, it.bad, it.caps)
 	}
 	cmd := exec.Command(drv)
 	cmd.Stdin = strings.NewReader(sb.String())
@@ -580,7 +581,7 @@ func (j *c06Judge) finish() {
 				What:  "a value returned by the library is not well-formed for its type (Lean Value.WF): " + clause,
 				Input: it.wire, GoLit: lit, Outcome: lean})
 		}
-		j.ctx.Add("wf", expected, it.wire, it.bad)
+		j.ctx.Add("wfc", expected, it.wire, it.bad, it.caps)
 	}
 }
 
@@ -632,6 +633,7 @@ func c06SelfTest(ctx *Ctx) {
 func runC06(ctx *Ctx) {
 	j := &c06Judge{ctx: ctx, seen: map[string]struct{}{}}
 	c06SelfTest(ctx)
+	c06SelfTestD06(ctx)
 	c06Produce(j)
 	j.finish()
 }
